@@ -255,5 +255,3 @@ func exhaustiveEngine(w *run.Worker, mr *metricsReader) {
 	flush(w, st)
 	w.Exhaustive("small scope to closure (3-4 keys x <=3 live blocks x 2 offsets, tables of 1-4 records): every reachable table content expanded by every operation", complete && closedAll)
 }
-
-var _ = run.Spec{}
